@@ -196,6 +196,40 @@ def r6_constraint_given_values(chk, prog):
     return n
 
 
+def r7_assigned_means_has_value(chk, prog):
+    """an argument that was used reports hasValue(): the mandatory check, the 'differ' constraint and the summary ask
+    hasValue(); for every argument class whose hasValue() returns a flag member, every normally returning path of
+    its assign() sets that flag (whatever formats / checks are attached)"""
+    tb = prog.derived_from('celma::prog_args::detail::TypedArgBase')
+    by_cls = {}
+    for f in prog.functions:
+        if f.cls in tb and f.short in ('hasValue', 'assign') and f.body is not None:
+            by_cls.setdefault(f.cls, {})[f.short] = f
+    n = 0
+    for cls, m in sorted(by_cls.items()):
+        if 'hasValue' not in m or 'assign' not in m:
+            continue
+        hv = m['hasValue']
+        rets = [x for x in hv.walk() if x.get('k') == 'ReturnStmt' and children(x)]
+        if len(rets) != 1:
+            continue
+        e = strip_all_casts(children(rets[0])[0])
+        if e.get('k') != 'MemberExpr' or e.get('ref', {}).get('dk') != 'Field' or \
+                not (e.get('t') or '').replace('const ', '').strip() == 'bool':
+            continue            # computed from the destination itself (containers, optional, ...)
+        flag = e['ref']['name']
+        f = m['assign']
+        sets = [x for x in f.walk() if x.get('k') == 'BinaryOperator' and x.get('op') == '=' and
+                field_name(children(x)[0]) == flag and strip_all_casts(children(x)[1]).get('val') in (True, 1)]
+        n += 1
+        missing = f.cfg.must_pass_through(lambda nn: nn in sets) if sets else [0]
+        chk.check(bool(sets) and not missing, 'R7', f.name, 'every successful assign() makes hasValue() true (%s = true '
+                  'on every normal return path)' % flag, f.loc(), 'a return is reachable without setting %s: the '
+                  'mandatory check then reports an argument that WAS given as missing' % flag)
+    chk.require(n >= 5, 'argument classes with a has-value flag: %d' % n)
+    return n
+
+
 def if_condition(ifs):
     """IfStmt children: [init / condition variable declarations ...] cond then [else]"""
     kids = [k for k in ifs.get('c', []) if isinstance(k, dict)]
@@ -283,6 +317,8 @@ def run(chk):
     r5_every_count_guarded(chk, prog)
     chk.rule('R6', 'value constraints relate only values that were given', 2)
     r6_constraint_given_values(chk, prog)
+    chk.rule('R7', 'an argument that was assigned reports hasValue()', 5)
+    r7_assigned_means_has_value(chk, prog)
     sub = type(chk)(chk.pid, chk.tier)
     sub._known = []
     c02.r3_canonical_key(sub, prog)
